@@ -1071,9 +1071,9 @@ seeded("g3-store-under-type", ["C03", "C01", "C20"], "G4", [(C, '''             
             condition: bool''')])
 seeded("g3-store-stripped", ["C03", "C01", "C20"], "G4", [(C, '''                if add:
                     self.arguments[curarg["name"]] = avalue
-                break''', '''                if add:
+                    # a repeated''', '''                if add:
                     self.arguments[curarg["name"]] = avalue.strip() if atype == "tag" else avalue
-                break''')])
+                    # a repeated''')])
 seeded("t3p-reassign-drops", ["C03"], "T3'", [(C, '''        if condition:
             self.arguments["list-of-flags"] = self.arguments.pop("variable-list")
             self.rargs_cnt = 1''', '''        if condition:
@@ -1467,3 +1467,13 @@ seeded("u7-connect-ignores-verdict", ["C16"], "U7", [(M, '''        if self.__au
 benign("c16-connect-returns-call", ["C16", "C10"], [(M, '''        if self.__authenticate(login, password, authz_id, authmech):
             return True
         return False''', '''        return self.__authenticate(login, password, authz_id, authmech)''')])
+
+seeded("g8-stale-tag-parameter", ["C04", "C03"], "G8", [(C, '''                    self.arguments[curarg["name"]] = avalue
+                    # a repeated tag replaces the previous one, parameter included
+                    self.extra_arguments.pop(curarg["name"], None)
+''', '''                    self.arguments[curarg["name"]] = avalue
+''')], "the defect repaired by dcddc53")
+benign("c04-refill-drops-with-del", ["C04", "C03"], [(C, '''                    self.extra_arguments.pop(curarg["name"], None)
+''', '''                    if curarg["name"] in self.extra_arguments:
+                        del self.extra_arguments[curarg["name"]]
+''')])
